@@ -41,7 +41,12 @@ def stimsTimely (S : Static) (orc : Oracle) (fuel : Nat) (s : Speed) :
       let (sim', top) := raiseInterrupt S fuel st.comp m.sim
       let stamp := interruptStamp m.tickerTime now m.lastReal s
       let sc := sim'.sched ""
-      let sim'' := { sim' with scheds := upsert sim'.scheds "" { sc with wake := addWakeup sc.wake top stamp } }
+      -- as in `masterRun`: an earlier wakeup of `top` is kept (under the condition checked below
+      -- there is none, `when = stamp`)
+      let when := match alookup sc.wake top with
+        | some w => if w < stamp then w else stamp
+        | none => stamp
+      let sim'' := { sim' with scheds := upsert sim'.scheds "" { sc with wake := addWakeup sc.wake top when } }
       (match whenT with
         | none => true
         | some w => if pending then decide (stamp = w) else decide (stamp ≤ w)) &&
